@@ -312,18 +312,49 @@ def rule_B4(ctx):
     else:
         ctx.violation("sbuf_buf", "terminator store", "sbuf_buf does not allocate before storing the terminator")
     f = prog.func("sbuf_cut", file="sbuf.c")
-    bad = False
-    for n, lv, op, rhs in stores(f.body):
-        if lv_field(lv) and lv_field(lv)[1] == "s_n":
-            facts = _facts(f, n)
-            lowers = any(c["k"] == "bin" and c["op"] == ">" and "s_n" in key(c["l"]) and
-                         key(c["r"]) == key(strip_casts(rhs)) and t for c, t in facts)
-            if not lowers:
-                bad = True
-    if bad:
+    from ..bounds import path_states
+    pn = f.params[0]["name"]
+    k_sn = "%s->s_n" % pn
+    lasts = []
+    stack = [b_ for b_ in f.cfg.blocks.values() if f.cfg.exit in b_.succ]
+    seen_b = set()
+    while stack:
+        b_ = stack.pop()
+        if b_.id in seen_b:
+            continue
+        seen_b.add(b_.id)
+        if b_.ev:
+            lasts.append(f.nodes.get(b_.ev[-1]))
+        else:
+            stack += [f.cfg.blocks[q] for q in b_.pred]
+    bad = None
+    n_p = 0
+    for last in [x for x in lasts if x is not None]:
+        for subst, hyps, items in path_states(f, last["id"]):
+            n_p += 1
+            post = dict(subst)
+            # the last event may itself be the store
+            if last["k"] == "bin" and last["op"] == "=" and key(last["l"]) == k_sn:
+                from ..lin import _COND_RES
+                byid = {f.nodes[x[1]]["id"]: x[2] for x in items if x[0] == "br"}
+                _COND_RES[0] = byid
+                try:
+                    r_ = linearize(strip_casts(last["r"]), subst)
+                finally:
+                    _COND_RES[0] = None
+                if r_ is not None:
+                    post[k_sn] = r_
+                else:
+                    post[k_sn] = Lin({"?": 1})
+            new_ = post.get(k_sn) or Lin({k_sn: 1})
+            if prove_le(new_, Lin({k_sn: 1}), hyps) != PROVEN:
+                bad = items
+    if n_p == 0:
+        ctx.inconclusive("sbuf_cut", "cut only shortens", "no path to the end of sbuf_cut")
+    elif bad:
         ctx.violation("sbuf_cut", "cut only shortens", "s_n can be raised by sbuf_cut")
     else:
-        ctx.ok("sbuf_cut", "s_n is only lowered")
+        ctx.ok("sbuf_cut", "s_n is only lowered (%d paths)" % n_p)
     # sbuf_extend: allocates exactly the recorded size and copies s_n bytes
     f = prog.func("sbuf_extend", file="sbuf.c")
     mal = list(f.calls("malloc"))
@@ -1377,7 +1408,7 @@ B3_EXCEPTIONS = {
     ("rset_find", "subs"): "filled by regexec with nsub = allocated count (B6)",
     ("lbuf_savemark", "lo->mark"): "index m comes from the caller's loop over NMARKS_BASE < NMARKS",
     ("lbuf_savemark", "lo->mark_off"): "index m comes from the caller's loop over NMARKS_BASE < NMARKS",
-    ("sbuf_extend", "sbuf->s"): "the requested size covers s_n + 1: obligation of every caller (B4)",
+    ("sbuf_extend", "*"): "the requested size covers s_n + 1: obligation of every caller (B4)",
 }
 
 
@@ -1405,7 +1436,7 @@ def rule_B3(ctx):
                 continue
             allocs.append((n, name, E, esz))
         for an, name, E, esz in allocs:
-            exc = B3_EXCEPTIONS.get((f.name, name))
+            exc = B3_EXCEPTIONS.get((f.name, name)) or B3_EXCEPTIONS.get((f.name, "*"))
             writes = []
             for n, lv, op, rhs in stores(f.body):
                 if op == "init" or not f.cfg.dominates(an, n):
